@@ -128,9 +128,41 @@ Section WithBody.
     Variable p : pipeline.
     Variable kw : alist.            (* flat_scope_kwargs *)
 
-    (* _run / _get_func_args.  The state is returned also when an exception propagates (the call log is
-       observable afterwards).  Fuel exhaustion (impossible for acyclic pipelines) is RuntimeError
-       (Python: RecursionError, a subclass). *)
+    (* _get_func_args, one parameter: bound value, else supplied keyword, else upstream output (recursive
+       _run, passed as `rec`), else (pipeline-level) default, else ValueError *)
+    Definition resolve (rec : rstate -> str -> rstate * result str) (f : pfunc) (st : rstate) (cur : str)
+      : rstate * result str :=
+      match aget (bound f) cur with
+      | Some b => (st, Ok b)
+      | None =>
+          match aget kw cur with
+          | Some v => (st, Ok v)
+          | None =>
+              if is_output p cur then rec st cur
+              else match pdefault p cur with
+                   | Some d => (st, Ok d)
+                   | None => (st, Err ValueError)              (* Missing value for argument *)
+                   end
+          end
+      end.
+
+    (* _get_func_args: parameters in signature order; used_parameters.add(arg) after each one; the argument
+       list handed to the user code carries the ORIGINAL names (PipeFunc.__call__, inverse renames) *)
+    Fixpoint get_args (rec : rstate -> str -> rstate * result str) (f : pfunc) (ps : list (str * str))
+             (st : rstate) (acc : alist) {struct ps} : rstate * result alist :=
+      match ps with
+      | [] => (st, Ok acc)
+      | (cur, orig) :: t =>
+          let '(st1, rv) := resolve rec f st cur in
+          match rv with
+          | Err e => (st1, Err e)
+          | Ok v => get_args rec f t (st_use st1 cur) (acc ++ [(orig, v)])
+          end
+      end.
+
+    (* _run.  The state is returned also when an exception propagates (the call log is observable
+       afterwards).  Fuel exhaustion (impossible for acyclic pipelines) is RuntimeError (Python:
+       RecursionError, a subclass). *)
     Fixpoint run_out (fuel : nat) (st : rstate) (o : str) {struct fuel} : rstate * result str :=
       match fuel with
       | O => (st, Err RuntimeError)
@@ -141,31 +173,7 @@ Section WithBody.
               match producer p o with
               | None => (st, Err KeyError)                          (* self.output_to_func[output_name] *)
               | Some f =>
-                  let fix get_args (ps : list (str * str)) (st : rstate) (acc : alist)
-                      : rstate * result alist :=
-                    match ps with
-                    | [] => (st, Ok acc)
-                    | (cur, orig) :: t =>
-                        let '(st1, rv) :=
-                          match aget (bound f) cur with
-                          | Some b => (st, Ok b)
-                          | None =>
-                              match aget kw cur with
-                              | Some v => (st, Ok v)
-                              | None =>
-                                  if is_output p cur then run_out n st cur
-                                  else match pdefault p cur with
-                                       | Some d => (st, Ok d)
-                                       | None => (st, Err ValueError)   (* Missing value for argument *)
-                                       end
-                              end
-                          end in
-                        match rv with
-                        | Err e => (st1, Err e)
-                        | Ok v => get_args t (st_use st1 cur) (acc ++ [(orig, v)])
-                        end
-                    end in
-                  let '(st1, ra) := get_args (params f) st [] in
+                  let '(st1, ra) := get_args (run_out n) f (params f) st [] in
                   match ra with
                   | Err e => (st1, Err e)
                   | Ok args =>
@@ -213,6 +221,24 @@ Section WithBody.
      well-formed pipeline). *)
   Definition default_of (p : pipeline) (k : str) : option str := aget (pdefaults p) k.
 
+  (* the value of parameter `cur` of f; `rec` evaluates an upstream output *)
+  Definition arg_val (rec : str -> result str) (p : pipeline) (kw : alist) (f : pfunc) (cur : str) : result str :=
+    match aget (bound f) cur with
+    | Some b => Ok b
+    | None =>
+        match aget kw cur with
+        | Some v => Ok v
+        | None =>
+            if is_output p cur then rec cur
+            else match default_of p cur with
+                 | Some d => Ok d
+                 | None => Err ValueError
+                 end
+        end
+    end.
+  Definition args_with (rec : str -> result str) (p : pipeline) (kw : alist) (f : pfunc) : result alist :=
+    mapM (fun po : str * str => do v <- arg_val rec p kw f (fst po); Ok (snd po, v)) (params f).
+
   Fixpoint eval (fuel : nat) (p : pipeline) (kw : alist) (o : str) {struct fuel} : result str :=
     match fuel with
     | O => Err RuntimeError
@@ -220,22 +246,7 @@ Section WithBody.
         match producer p o with
         | None => Err KeyError
         | Some f =>
-            do args <- mapM (fun po : str * str =>
-                               let (cur, orig) := po in
-                               do v <- match aget (bound f) cur with
-                                       | Some b => Ok b
-                                       | None =>
-                                           match aget kw cur with
-                                           | Some v => Ok v
-                                           | None =>
-                                               if is_output p cur then eval n p kw cur
-                                               else match default_of p cur with
-                                                    | Some d => Ok d
-                                                    | None => Err ValueError
-                                                    end
-                                           end
-                                       end;
-                               Ok (orig, v)) (params f);
+            do args <- args_with (eval n p kw) p kw f;
             do r <- body (fname f) args;
             Ok (route f o r)
         end
@@ -287,14 +298,7 @@ Section WithBody.
 
   (* the argument list the specification passes to f *)
   Definition eval_args (p : pipeline) (kw : alist) (f : pfunc) : result alist :=
-    mapM (fun po : str * str =>
-            let (cur, orig) := po in
-            do v <- match source_of p kw f cur with
-                    | SBound v | SKw v | SDefault v => Ok v
-                    | SUp _ => eval_top p kw cur
-                    | SMissing => Err ValueError
-                    end;
-            Ok (orig, v)) (params f).
+    args_with (eval (length p) p kw) p kw f.
 
   (* ---------- arg_combinations / root_args ---------- *)
   (* A dependency node is identified by a str: a function by its fid, a root argument by its name. *)
